@@ -258,6 +258,21 @@ def encoder_rules(cfg, R, lib):
                 break
             modp = _P(a[2][1])
             fs = [x for x in modp.atoms() if x[0] == 'fstr']
+            if not fs:
+                # the path that emits no remainder: its guard must force the remainder to be zero
+                rem_key = Poly.atom(('fdiv', Poly.atom(('fmod', Poly.atom(('sym', sec)).key(), Poly.const(Dcode).key())).key(), Poly.const(60).key())).key()
+                leak = None
+                for val in gnf.valuations([g]):
+                    if not val.eval(g):
+                        continue
+                    reg = val.regions.get(rem_key)
+                    if reg is None or (reg[0] == 'pt' and reg[1] != 0) or (reg[0] == 'gap' and (reg[2] is None or reg[2] > 0)):
+                        leak = val.describe()
+                        break
+                if leak is not None:
+                    ok, msg = False, ('the modifier is emitted without the minute remainder on a path where the remainder (seconds mod %d) // 60 '
+                                      'can be non-zero (%s): such a time reads back rounded down to the quarter hour' % (Dcode, leak))
+                    break
             if fs:
                 tree, holes, text = _template_expr(fs[0])
                 lin = _lin_of_template(tree, len(holes)) if tree is not None else None
